@@ -121,6 +121,11 @@ def gen(seed, tier):
         return gen_idxrace(r, tier)
     if x0 < 0.14 or os.environ.get('ZSIM_C08_POOL_ONLY'):
         return gen_poolrace(r, tier)
+    if x0 > 0.9 and (tier == 'thorough'
+                     or os.environ.get('ZSIM_C08_BLOBRACE')):
+        # blobs and threads in one world (thorough tier)
+        from . import c08blob
+        return c08blob.gen(r, tier)
     arm = r.choice(('sched', 'sched', 'crash', 'fail'))
     if arm == 'fail':
         ops = G.gen_history(ctx.subseed(seed, 'h'), 'file',
@@ -633,6 +638,9 @@ def run_fail(case):
 def run(case):
     if case['arm'] == 'fail':
         return run_fail(case)
+    if case['arm'] == 'blobrace':
+        from . import c08blob
+        return c08blob.run(case)
     w, s = run_sched(case)
     stats = dict(w.stats)
     keys = []
@@ -685,7 +693,11 @@ LEVEL_NOTE = ('sched/crash arms: <= 3 clients x <= 6 transactions, <= 2 '
               'packers; crash cuts at op granularity (torn writes of the '
               '.pack file are not cut byte-wise: the .pack file is never '
               'read back before the swap); fail arm uses pack_gc=False '
-              'histories; trusted: scheduler, op log, history oracle')
+              'histories; thorough tier only: a blobrace arm (<= 3 threads '
+              'committing or aborting blobs on a blob-enabled FileStorage '
+              'beside <= 2 packers, pre-emption also at every mutating '
+              'operation on the blob directory, os.makedirs level by level); '
+              'trusted: scheduler, op log, history oracle')
 TECHNIQUE = ('deterministic simulation: seeded scheduler over packer and '
              'client threads, enumerated crash images and failing '
              'operations of a pack')
